@@ -256,6 +256,28 @@ def Item.call (md5 : Str → Str) (tps : Nat) : Item → Saved → World → Out
   | .stampOf f a c, sv, w => stamp f a c sv w
   | .resDep d, sv, w => resultDep d sv w
 
+/-- the DB key an item reads and writes -/
+def Item.key : Item → Str
+  | .once => kRunOnce
+  | .config => kConfig
+  | .tmo _ => kSuccessTime
+  | .stampOf f a _ => stampKey f a
+  | .resDep d => kResult d
+
+/-- `cmp_op(t, t)` holds for every `t` -/
+def Cmp.isRefl : Cmp → Bool
+  | .eq | .le | .ge | .const true => true
+  | _ => false
+
+/-- the (decidable) side condition under which a helper can be up-to-date at all right after a success: the timeout
+    limit is positive, `cmp_op` is reflexive, the other task has a result, the config has a digest -/
+def Item.canRepeat (tps : Nat) (w : World) : Item → Bool
+  | .once => true
+  | .config => w.cfg != .bad
+  | .tmo l => decide (0 < limitSec l * tps)
+  | .stampOf _ _ c => c.isRefl
+  | .resDep d => depResult w d != .null
+
 inductive Change where
   | tick (dt : Nat)
   | setCfg (c : Cfg)
@@ -287,6 +309,11 @@ inductive Op where
   | run (ok : Bool) (during : List Change)
   deriving Repr
 
+/-- an op that records no success: anything but a run whose action succeeds -/
+def Op.noSuccess : Op → Bool
+  | .run true _ => false
+  | _ => true
+
 inductive Obs where
   | changed
   | answered (a : Ans)
@@ -295,7 +322,7 @@ inductive Obs where
   | executedSaveError (a : Ans) (e : Err)
   | executedFailed (a : Ans)
   | statusError (e : Err)
-  deriving Repr
+  deriving DecidableEq, Repr
 
 /-- the outcome of the execution part of a run -/
 def finishRun (s : St) (o : Out) (ok : Bool) (during : List Change) : St × Obs :=
